@@ -124,6 +124,22 @@ def may_conds(prog: Program, fi: FuncInfo, node: ast.AST) -> List[Cond]:
     return [c.normalised() for c in prog.conditions(fi, node, universal=False)]
 
 
+def conjuncts(c: Cond) -> Optional[List[ast.AST]]:
+    """The literals of a guard when it reads as a conjunction (`a and b` taken, or `a or b` not taken, whatever
+    De Morgan variant the source uses), each in negation normal form; None when the guard is a disjunction."""
+    from ..core.cfg import nnf
+    if c.polarity not in (True, False):
+        return None
+    t = c.test
+    if isinstance(t, ast.BoolOp):
+        if isinstance(t.op, ast.And) and c.polarity is True:
+            return [nnf(v) for v in t.values]
+        if isinstance(t.op, ast.Or) and c.polarity is False:
+            return [nnf(v, negate=True) for v in t.values]
+        return None
+    return [nnf(t, negate=not c.polarity)]
+
+
 def is_early_exit_guard(prog: Program, fi: FuncInfo, c: Cond) -> bool:
     """c is the test of an `if <test>: return/raise/continue` guard (the node runs when
     the guard does NOT fire): such a condition restricts when the function / loop body
